@@ -28,7 +28,11 @@ OWN_ERRORS = {'ParserError', 'SymbolError', 'IndentationError'}
 
 # ---------------------------------------------------------------------------
 def r1_who_may_exec(R) -> None:
+    """(1) nothing on the call graph of parse_model executes text; (2) whatever is executed anywhere in fsic/parser.py is a
+    class definition produced by build_model_definition()."""
     n_calls = 0
+    esc = Escape(R.repo, P, fsic_hierarchy(R.repo))
+    parse_path = esc.reachable_functions(f'{P}.parse_model')
     for q, fi in list(R.repo.functions.items()):
         if not q.startswith(P + '.'):
             continue
@@ -36,10 +40,9 @@ def r1_who_may_exec(R) -> None:
             if isinstance(n, ast.Call) and dotted(n.func) in ('exec', 'eval'):
                 n_calls += 1
                 where = f'{fi.module.relpath}:{n.lineno}'
-                if q != f'{P}.build_model':
+                if q in parse_path:
                     R.violation(q, f'exec-outside-build_model:{text(n)[:60]}',
-                                f'`{text(n)[:60]}` executes text in {fi.name}(): only build_model may exec, and only a class definition '
-                                f'(parsing must never run the model\'s statements)', where=where)
+                                f'`{text(n)[:60]}` executes text in {fi.name}(), which parse_model() can reach: parsing must never run the model\'s statements', where=where)
                     continue
                 f = Fn(R, q)
                 arg = n.args[0] if n.args else None
@@ -257,14 +260,14 @@ def _beliefs(R, f_escape: Escape):
         from rules.common import tainted_names
         fi_ = R.repo.func(site.func)
         seeds = ['groupdict'] + [text(a.targets[0]) for a in ast.walk(fi_.node) if isinstance(a, ast.Assign) and len(a.targets) == 1
-                                 and isinstance(a.targets[0], ast.Name) and method_call(a.value, 'groupdict')]
+                                 and isinstance(a.targets[0], ast.Name) and any(method_call(x, 'groupdict') for x in ast.walk(a.value))]
         tainted = tainted_names(fi_.node, seeds)
         prov = False
         for n in ast.walk(fi_.node):
             if isinstance(n, ast.Subscript) and text(n)[:120] == site.key and isinstance(n.ctx, ast.Load):
                 names = {x.id for x in ast.walk(n.slice) if isinstance(x, ast.Name)}
                 prov = bool(names) and names <= tainted and any(
-                    isinstance(a, ast.Assign) and method_call(a.value, 'groupdict') for a in ast.walk(fi_.node))
+                    isinstance(a, ast.Assign) and any(method_call(x, 'groupdict') for x in ast.walk(a.value)) for a in ast.walk(fi_.node))
         if not prov:
             return (False, 'the enum key does not come from match.groupdict()')
         t = fd.get('term_re')
@@ -308,18 +311,17 @@ def _beliefs(R, f_escape: Escape):
         tm = TermMatch(R)
         f = tm.f
         kinds = set()
-        for d in f.vdefs(tm.idx):
-            v = d.value
-            if d.op is not None:
-                kinds.add('?:' + text(d.node.ast))
-            elif isinstance(v, ast.Constant):
+        for (_facts, v) in tm.index_leaves():
+            t_ = tm.norm_raw(text(v))
+            if isinstance(v, ast.Constant):
                 kinds.add(type(v.value).__name__)
             elif is_call(v, 'int'):
                 kinds.add('int')
-            elif tm.raw_kind(d.node.id, v) is not None:
+            elif t_ == '<INDEX>' or (isinstance(v, ast.Subscript) and isinstance(v.slice, ast.Slice) and tm.norm_raw(text(v.value)) == '<INDEX>') \
+                    or (method_call(v, 'strip', 'lstrip', 'rstrip') and tm.norm_raw(text(v.func.value)) == '<INDEX>'):
                 kinds.add('str')
             else:
-                kinds.add('?:' + text(v))
+                kinds.add('?:' + text(v)[:60])
         ok = kinds <= {'int', 'str', 'NoneType'}
         if not ok:
             return (False, f'process_term_match assigns {sorted(kinds)} to the index')
